@@ -17,7 +17,7 @@ def run(ctx):
     scen = ctx.gen("Gen_C16", "Gen_C16_quick" if q else "Gen_C16_thorough")
     if ctx.replay:
         import json
-        scen = [json.load(open(ctx.replay))["trace"]["scenario"]]
+        scen = ctx.replay_scenarios()
     # (C) real code
     traces = ctx.drive("c16", scen)
     # (D) verdict by TLC
